@@ -3,6 +3,7 @@
 per-op simplification, while the same violation class persists."""
 
 import copy
+import time
 
 
 def ddmin_list(items, test, budget):
@@ -39,11 +40,20 @@ def ddmin_list(items, test, budget):
     return items
 
 
-def shrink_plan(plan, still_fails, simplifiers, well_formed=None, max_evals=600):
+def shrink_plan(plan, still_fails, simplifiers, well_formed=None, max_evals=600, deadline=None):
     """plan: dict with an 'ops' list.  still_fails(plan)->bool.
-    simplifiers(plan) yields candidate plans that are simpler than plan."""
+    simplifiers(plan) yields candidate plans that are simpler than plan.
+    deadline (time.monotonic() value): no evaluation starts after it."""
     budget = [max_evals]
     best = copy.deepcopy(plan)
+    if deadline is not None:
+        inner = still_fails
+
+        def still_fails(cand):
+            if time.monotonic() > deadline:
+                budget[0] = 0
+                return False
+            return inner(cand)
 
     def test_ops(ops):
         cand = dict(best)
